@@ -75,6 +75,52 @@ fn as_f64_exact(v: &RVal) -> Result<f64, ()> {
     }
 }
 
+/// Arithmetic with an integer operand beyond 2^53: the documentation does not say whether it is
+/// carried out on integers or on doubles, so both results are accepted - the double result
+/// (within the usual tolerance) and, when every operand is an integer and the exact result is
+/// a 64-bit integer, the exact one. Anything else (a wrapped, negated or truncated value) is
+/// a mismatch.
+fn big_arith(f: &str, nums: &[RVal]) -> Ev {
+    let fl: Vec<f64> = nums.iter().map(|v| v.as_f64().unwrap()).collect();
+    let ints: Option<Vec<i128>> = nums.iter().map(|v| if let RVal::Int(i) = v { Some(*i) } else { None }).collect();
+    let (r, exact): (f64, Option<i128>) = match f {
+        "abs" => (fl[0].abs(), ints.as_ref().map(|i| i[0].abs())),
+        "round" | "ceil" | "floor" => (fl[0], ints.as_ref().map(|i| i[0])),
+        "neg" => (-fl[0], ints.as_ref().map(|i| -i[0])),
+        "+" | "sum" => (fl.iter().fold(0.0, |a, b| a + b), ints.as_ref().and_then(|i| i.iter().try_fold(0i128, |a, b| a.checked_add(*b)))),
+        "*" => (fl.iter().fold(1.0, |a, b| a * b), ints.as_ref().and_then(|i| i.iter().try_fold(1i128, |a, b| a.checked_mul(*b)))),
+        "-" => (fl[0] - fl[1], ints.as_ref().and_then(|i| i[0].checked_sub(i[1]))),
+        "/" => {
+            if fl[1] == 0.0 {
+                return nothing();
+            }
+            (fl[0] / fl[1], ints.as_ref().and_then(|i| if i[1] != 0 && i[0] % i[1] == 0 { Some(i[0] / i[1]) } else { None }))
+        }
+        "%" => {
+            if fl[1] == 0.0 {
+                return nothing();
+            }
+            (fl[0] % fl[1], ints.as_ref().and_then(|i| if i[1] != 0 { Some(i[0] % i[1]) } else { None }))
+        }
+        _ => return U,
+    };
+    let a = match num_result(r) {
+        Val(x) => x,
+        _ => return U,
+    };
+    match exact {
+        Some(e) if e >= -(1i128 << 63) && e < (1i128 << 64) => {
+            let b = Some(RVal::Int(e));
+            if matches!(&a, Some(RVal::Int(x)) if *x == e) {
+                Val(a)
+            } else {
+                OneOf(vec![a, b])
+            }
+        }
+        _ => Val(a),
+    }
+}
+
 /// f64 result -> the value jawk's documentation promises ("zero fractional part => integer")
 fn num_result(r: f64) -> Ev {
     if !r.is_finite() {
@@ -316,7 +362,9 @@ fn known_expr_text(s: &str) -> Result<Option<Expr>, ()> {
         ":v" => Expr::Var("v".into()),
         "(map .an (+ . 1))" => Expr::call("map", vec![Expr::key(0, "an"), Expr::call("+", vec![Expr::dot(), Expr::lit("1")])]),
         "(take .s 1)" => Expr::call("take", vec![Expr::key(0, "s"), Expr::lit("1")]),
-        "(" | "(nosuch 1)" | "(+ 1" | "" | "(len)" => return Ok(None),
+        "(+ 10 11) = total" => Expr::call("+", vec![Expr::lit("10"), Expr::lit("11")]),
+        // a complete expression followed by something that is not `= name`: not a selection
+        "(" | "(nosuch 1)" | "(+ 1" | "" | "(len)" | "(+ 10 11) junk" | "(+ 10 11))" | ".n junk" | "12 13" | "[1,2]]" | "(+ 1 2) x" => return Ok(None),
         _ => return Err(()),
     }))
 }
@@ -735,7 +783,7 @@ impl Evaluator {
                     }
                     match as_f64_exact(x) {
                         Ok(v) => s += v,
-                        Err(()) => return U,
+                        Err(()) => return big_arith("sum", &a),
                     }
                 }
                 num_result(s)
@@ -842,7 +890,7 @@ impl Evaluator {
                 Some(v) if v.is_num() => match as_f64_exact(&v) {
                     Ok(x) => {
                         if x.abs() >= TWO53 {
-                            return U;
+                            return big_arith(f, &[v]);
                         }
                         num_result(match f {
                             "abs" => x.abs(),
@@ -851,7 +899,7 @@ impl Evaluator {
                             _ => x.floor(),
                         })
                     }
-                    Err(()) => U,
+                    Err(()) => big_arith(f, &[v]),
                 },
                 _ => nothing(),
             },
@@ -864,8 +912,8 @@ impl Evaluator {
                         _ => return nothing(),
                     }
                 }
-                for v in nums {
-                    match as_f64_exact(&v) {
+                for v in &nums {
+                    match as_f64_exact(v) {
                         Ok(x) => {
                             if f == "+" {
                                 acc += x
@@ -873,7 +921,7 @@ impl Evaluator {
                                 acc *= x
                             }
                         }
-                        Err(()) => return U,
+                        Err(()) => return big_arith(f, &nums),
                     }
                 }
                 num_result(acc)
@@ -884,7 +932,7 @@ impl Evaluator {
                     return match a {
                         Some(v) if v.is_num() => match as_f64_exact(&v) {
                             Ok(x) => num_result(-x),
-                            Err(()) => U,
+                            Err(()) => big_arith("neg", &[v]),
                         },
                         _ => nothing(),
                     };
@@ -893,7 +941,7 @@ impl Evaluator {
                 match (a, b) {
                     (Some(a), Some(b)) if a.is_num() && b.is_num() => match (as_f64_exact(&a), as_f64_exact(&b)) {
                         (Ok(x), Ok(y)) => num_result(x - y),
-                        _ => U,
+                        _ => big_arith("-", &[a, b]),
                     },
                     _ => nothing(),
                 }
@@ -907,7 +955,7 @@ impl Evaluator {
                             num_result(if f == "/" { x / y } else { x % y })
                         }
                     }
-                    _ => U,
+                    _ => big_arith(f, &[a, b]),
                 },
                 _ => nothing(),
             },
@@ -1158,7 +1206,19 @@ impl Evaluator {
                 Json(v) => val(v),
                 Val(Some(RVal::Str(s))) => match parse_one(s.as_bytes()) {
                     Ok(v) => val(v),
-                    Err(_) => U, // what a lenient reader makes of it is not documented
+                    Err(_) => {
+                        // not a JSON text: no JSON value, i.e. nothing - except for digit strings
+                        // that only a lenient number reader accepts (leading zeros, a trailing
+                        // dot, an empty exponent: "007", "1.", "1e"), which are left open
+                        let t = s.trim_matches(|c| c == ' ' || c == '\t' || c == '\n' || c == '\r');
+                        let b = t.strip_prefix('-').unwrap_or(t).as_bytes();
+                        let numberish = !b.is_empty() && b[0].is_ascii_digit() && b.iter().all(|c| c.is_ascii_digit() || matches!(c, b'.' | b'e' | b'E' | b'+' | b'-'));
+                        if numberish {
+                            U
+                        } else {
+                            nothing()
+                        }
+                    }
                 },
                 Val(_) => nothing(),
                 _ => U,
@@ -1217,6 +1277,23 @@ impl Evaluator {
                             Some('M') => out.push_str(&format!("{:02}", rem % 3600 / 60)),
                             Some('S') => out.push_str(&format!("{:02}", rem % 60)),
                             Some('%') => out.push('%'),
+                            // the instant is in UTC (chrono's strftime documentation)
+                            Some('z') => out.push_str("+0000"),
+                            Some('Z') => out.push_str("UTC"),
+                            Some(':') => match it.next() {
+                                Some('z') => out.push_str("+00:00"),
+                                _ => return U,
+                            },
+                            Some('+') => out.push_str(&format!("{:04}-{:02}-{:02}T{:02}:{:02}:{:02}+00:00", y, m, d, rem / 3600, rem % 3600 / 60, rem % 60)),
+                            Some('s') => out.push_str(&secs.to_string()),
+                            Some('T') => out.push_str(&format!("{:02}:{:02}:{:02}", rem / 3600, rem % 3600 / 60, rem % 60)),
+                            Some('R') => out.push_str(&format!("{:02}:{:02}", rem / 3600, rem % 3600 / 60)),
+                            Some('F') => out.push_str(&format!("{:04}-{:02}-{:02}", y, m, d)),
+                            Some('D') => out.push_str(&format!("{:02}/{:02}/{:02}", m, d, y % 100)),
+                            Some('y') => out.push_str(&format!("{:02}", y % 100)),
+                            Some('e') => out.push_str(&format!("{:2}", d)),
+                            Some('n') => out.push('\n'),
+                            Some('t') => out.push('\t'),
                             _ => return U,
                         }
                     }
